@@ -14,6 +14,7 @@
   the same definitions at `K = Rat`.
 -/
 import Proofs.C10_Setters
+import Proofs.C10_Elastic
 import Atomman.C09
 import Mathlib.Algebra.Order.Field.Rat
 
@@ -543,6 +544,68 @@ example : cijSet (1 / 1000000000 : ℚ) (1 / 1000000000) (1 / 100000)
      0, 0, 0, 0, 0, 1 / 2] := by decide +kernel
 
 end field
+
+/-! ## ElasticConstants stored in a crystal-system representation (`normalized_as` inside the model) -/
+
+section normal_form
+variable [Field K] [LinearOrder K] [IsStrictOrderedRing K]
+
+/-- **normalized_fixes_normal_form**: `normalized_as(cs)` does not change an `ElasticConstants` object whose
+    constants already are in the general normal form of `cs` (`InForm`: 3 cubic, 5 hexagonal, 7 tetragonal with
+    `C16 = -C26`, 7 rhombohedral with `C14`, `C15`, 9 orthorhombic constants, anything for triclinic). -/
+theorem normalized_fixes_normal_form (eps atol rtol : K) (muK : Option (K × K)) (cs : String) (c : List K)
+    (h : InForm cs c) (hc : cijSet eps atol rtol c = some c) :
+    normalizedAs eps atol rtol muK cs c = some c := by
+  simp [normalizedAs, normForm_fix muK cs c h, hc]
+
+/-- **elastic_model_normal_form**: `ElasticConstants(model=ec.model(unit=u, crystal_system=cs))` reproduces `ec`
+    exactly — all 36 constants — when `ec` is in the normal form of `cs`, through the tree / JSON and through XML
+    text, for every unit with a non-zero factor. -/
+theorem elastic_model_normal_form (fac : String → K) (eps atol rtol : K) (u : Option String)
+    (muK : Option (K × K)) (cs : String) (c : List K) (h : InForm cs c) (hc : cijSet eps atol rtol c = some c)
+    (hf : ∀ s, u = some s → factor fac s ≠ 0) :
+    ∃ t, ecModelCS fac u eps atol rtol muK cs c = some t ∧ ecRead fac eps atol rtol t = some c ∧
+      ecRead fac eps atol rtol (xmlNorm t) = some c := by
+  have hlen := cijSet_length eps atol rtol c c hc
+  obtain ⟨t, e1, e2⟩ := elastic_model_roundtrip fac eps atol rtol u (fun _ => c) c hlen hf
+  obtain ⟨t', e1', e3⟩ := elastic_model_roundtrip_xml fac eps atol rtol u (fun _ => c) c hlen hf
+  have : t' = t := by rw [e1] at e1'; exact (Option.some.inj e1').symm
+  subst this
+  refine ⟨t', ?_, by rw [e2]; exact hc, by rw [e3]; exact hc⟩
+  simp only [ecModelCS, normalized_fixes_normal_form eps atol rtol muK cs c h hc, e1]
+
+/-- the seven-constant tetragonal tensor with `C16 = -17 = -C26` passes the setter unchanged: the hypotheses of
+    `elastic_model_normal_form` are satisfiable with `C16 ≠ 0`. -/
+example : cijSet (1 / 1000000000 : ℚ) (1 / 1000000000) (1 / 100000) (tetraForm 144 127 64 56 37 45 (-17))
+    = some (tetraForm 144 127 64 56 37 45 (-17)) := by decide +kernel
+example : cijSet (1 / 1000000000 : ℚ) (1 / 1000000000) (1 / 100000) (rhomboForm 87 106 7 12 (-18) 3 58)
+    = some (rhomboForm 87 106 7 12 (-18) 3 58) := by decide +kernel
+
+/-- **elastic_model_normal_form_two**: written under `fac1`, read under `fac2`: the constants of a crystal in the
+    normal form of `cs` come back multiplied by the pressure unit's factor ratio (and through the setter), none of
+    them lost to the normalisation. -/
+theorem elastic_model_normal_form_two (fac1 fac2 : String → K) (eps atol rtol : K) (u : Option String)
+    (muK : Option (K × K)) (cs : String) (c : List K) (h : InForm cs c) (hc : cijSet eps atol rtol c = some c) :
+    ∃ t, ecModelCS fac1 u eps atol rtol muK cs c = some t ∧
+      ecRead fac2 eps atol rtol t = cijSet eps atol rtol (c.map (scaleFn fac1 fac2 u)) := by
+  have hlen := cijSet_length eps atol rtol c c hc
+  obtain ⟨t, e1, e2⟩ := elastic_model_two fac1 fac2 eps atol rtol u (fun _ => c) c hlen
+  exact ⟨t, by simp only [ecModelCS, normalized_fixes_normal_form eps atol rtol muK cs c h hc, e1], e2⟩
+
+/-- **elastic_model_second_generation**: whatever constants `n` a (lossy) normalisation into `cs` produces from
+    arbitrary constants `c`, they are in the normal form of `cs`; so, when the setter leaves them alone, storing
+    them as `cs` again reproduces them exactly: the stored representation is stable. -/
+theorem elastic_model_second_generation (fac : String → K) (eps atol rtol : K) (u : Option String)
+    (muK muK' : Option (K × K)) (cs : String) (hcs : cs ≠ "isotropic") (c n : List K)
+    (hn : normForm muK cs c = some n) (hc : cijSet eps atol rtol n = some n)
+    (hf : ∀ s, u = some s → factor fac s ≠ 0) :
+    normalizedAs eps atol rtol muK cs c = some n ∧
+    ∃ t, ecModelCS fac u eps atol rtol muK' cs n = some t ∧ ecRead fac eps atol rtol t = some n ∧
+      ecRead fac eps atol rtol (xmlNorm t) = some n :=
+  ⟨by simp [normalizedAs, hn, hc],
+   elastic_model_normal_form fac eps atol rtol u muK' cs n (normForm_inForm muK cs c n hcs hn) hc hf⟩
+
+end normal_form
 
 /-! ## the object invariants are established by the setters (ordered fields) -/
 
